@@ -486,3 +486,32 @@ func ZZC08Twin() {
 	g.commit(0x11, 1)
 	rt.Assert(!bytes.Equal(g.snaps[0][1].HyperDigest, g.snaps[1][1].HyperDigest), "twin")
 }
+
+// ---- exported helpers for harnesses in other packages (C11) ----
+
+// ZZNewSingle opens a single-replica cluster and returns its node.
+func ZZNewSingle() *RaftNode { return zzNewCluster(1).nodes[0] }
+
+// ZZSyncLog makes the entries committed so far visible to ZZReplayOnFreshReplica (native side).
+func ZZSyncLog(n *RaftNode) {
+	if !rt.Symbolic() {
+		zzNativeRecord(n)
+	}
+}
+
+// ZZReplayOnFreshReplica applies the whole committed log on a brand-new replica
+// (what a follower, or this node after losing its data, does).
+func ZZReplayOnFreshReplica(label string) bool {
+	st := models.NewMemStore()
+	n := zzOpenNodeNoRaft(st)
+	for _, e := range zzC.log {
+		ent := e
+		if !rt.NoPanic(func() { n.Apply(&raft.Log{Index: ent.index, Term: 1, Type: raft.LogCommand, Data: ent.data}) }, label) {
+			return false
+		}
+	}
+	return true
+}
+
+// ZZEventDigest is the digest the node computes for an event.
+func ZZEventDigest(n *RaftNode, event []byte) hashing.Digest { return n.hasherF().Do(event) }
